@@ -7,6 +7,9 @@ props = [json.loads(l) for l in open(os.path.join(ROOT, "properties.jsonl"))]
 E = "exploration"
 # id -> (category, technique, what the level gives, trusted base / assumptions)
 CHECKS = {
+ "C27": (E, "proptest over gate-opening schedules of a deterministic executor, per-event reference execution",
+   "Subscriptions with one and two root fields, 0-3 events each, nullable failing sub-fields gated by the deterministic executor; every response must carry one root key and equal the reference execution of its own event, errors must belong to that event; streamed queries/mutations on Z must yield exactly one response equal to the reference.",
+   "Two root fields are outside the specification; while C27-F1 is open they run only in a probe stream that checks the exact quirk (errors conserved but possibly attached to another root field's event)."),
  "C06": (E, "proptest against reference input coercion (spec 6.1.2, 6.4.1, oneOf) with typed echo resolvers",
    "One echo field per argument type (scalars, enum, nested lists, input objects with defaults/Option/MaybeUndefined fields, oneOf) x supply mode (right/arbitrary literal, variable provided/null/omitted with or without default, nested variables, single value for list, omitted argument); 400k cases per quick run; the resolver must have run once with exactly the reference-coerced value (canonical form distinguishing undefined/null/value) or the request must fail without invoking it.",
    "Static (typed) resolvers only. Variables are declared with the type of their position; unknown field names in literals and ill-typed default literals are validation matters (C09)."),
